@@ -1,8 +1,12 @@
 #!/usr/bin/env python3
 """Runs the registered quick checks against every seeded change under /verif/seeded/<id>/patch.diff.
 
-For each change: `git -C /repo apply`, run the check of the targeted property (and, with --all, every check),
-record exit status / VIOLATION lines, then `git -C /repo checkout -- .`.  Results: seeded/RESULTS.json + .md.
+/repo itself is never touched: the changes are applied to a scratch worktree of /repo's HEAD outside /repo and /verif
+(`git worktree add --detach`), the checks run against it through CV_REPO, and the worktree is removed at the end.  (Patching
+/repo in place once left a seeded change behind when the session was killed before the `finally` ran; the end-of-round
+snapshot then committed it and C04/C14 - rightly - raised alarms on the "unchanged" tree.)
+For each change: `git apply` in the worktree, run the check of the targeted property (and, with --all, every check),
+record exit status / VIOLATION lines, then `git checkout -- .` there.  Results: seeded/RESULTS.json + .md.
 Usage: tools/run_seeded.py [--all] [--only ID ...] [--tier quick|thorough]
 """
 import argparse
@@ -13,7 +17,8 @@ import sys
 import time
 
 HERE = os.path.abspath(os.path.join(os.path.dirname(__file__), ".."))
-REPO = "/repo"
+SRC = "/repo"
+REPO = f"/tmp/cv_seedrepo_{os.getpid()}"  # scratch worktree; /repo is left alone
 
 
 def sh(cmd, **kw):
@@ -27,9 +32,22 @@ def main():
     ap.add_argument("--tier", default="quick")
     ap.add_argument("--out", default="RESULTS", help="basename of the result files under seeded/")
     a = ap.parse_args()
-    if sh(f"git -C {REPO} status --porcelain").stdout.strip():
+    if sh(f"git -C {SRC} status --porcelain").stdout.strip():
         print("/repo is not clean; refusing", file=sys.stderr)
         sys.exit(2)
+    sh(f"git -C {SRC} worktree prune")
+    r = sh(f"git -C {SRC} worktree add --detach {REPO} HEAD")
+    if r.returncode != 0:
+        print("cannot create the scratch worktree:", r.stderr[:300], file=sys.stderr)
+        sys.exit(2)
+    try:
+        run(a)
+    finally:
+        sh(f"git -C {SRC} worktree remove --force {REPO}")
+        sh(f"git -C {SRC} worktree prune")
+
+
+def run(a):
     man = json.load(open(os.path.join(HERE, "MANIFEST.json")))
     all_checks = [c["property_id"] for c in man["checks"]]
     res_path = os.path.join(HERE, "seeded", a.out + ".json")
@@ -50,7 +68,7 @@ def main():
             row = results.get(sid, {})
             for pid in targets:
                 t0 = time.time()
-                c = sh(f"CV_EVIDENCE_DIR=/tmp/cv_seeded_evidence ./check {pid} --tier {a.tier}", cwd=HERE, timeout=7200)
+                c = sh(f"CV_REPO={REPO} CV_EVIDENCE_DIR=/tmp/cv_seeded_evidence ./check {pid} --tier {a.tier}", cwd=HERE, timeout=7200)
                 viol = [l for l in c.stdout.split("\n") if l.startswith("VIOLATION")]
                 row[pid] = {
                     "exit": c.returncode,
